@@ -126,6 +126,7 @@ type c09lWorld struct {
 	out     [][]RawType // expected output stream per channel, indexed by dastard frame number
 	cycles  int         // processing cycles completed
 	recMark int         // records checked so far
+	prevLen int         // frames delivered before the cycle being checked
 	trig    []c09lTrig
 
 	conn          map[c09lPair]bool
@@ -317,6 +318,7 @@ func (w *c09lWorld) waitCycle() {
 	w.cycles = target
 	w.drain()
 	// extend the expected output streams to what dastard has numbered so far
+	w.prevLen = len(w.out[0])
 	emitted := int(w.ls.nextFrameNum)
 	if w.n0+emitted > w.card.nextFrame() {
 		simrt.Fail("harness.cycle", "harness:more-frames-than-sent", "dastard has numbered %d frames, the card has sent %d since the run began", emitted, w.card.nextFrame()-w.n0)
@@ -511,6 +513,22 @@ func (w *c09lWorld) checkReported(what string, before int) {
 	}
 }
 
+// lastReported renders the connections of the latest GROUPTRIGGER message.
+func (w *c09lWorld) lastReported() string {
+	m, ok := w.sk.lastMsg("GROUPTRIGGER")
+	if !ok {
+		return "none"
+	}
+	gts, _ := m.state.(GroupTriggerState)
+	got := map[c09lPair]bool{}
+	for s, rxs := range gts.Connections {
+		for _, r := range rxs {
+			got[c09lPair{s, r}] = true
+		}
+	}
+	return c09lConnString(got)
+}
+
 func (w *c09lWorld) checkCoupling(what string, before int, want CouplingStatus) {
 	w.drain()
 	if w.nMsgs("TRIGCOUPLING") <= before {
@@ -583,6 +601,9 @@ func (w *c09lWorld) request(kind int) {
 		w.call(fmt.Sprintf("%s %v", what, m), func() error { return w.sc.DeleteGroupTriggerCoupling(&GroupTriggerState{Connections: m}, &ok) })
 		for s, rxs := range m {
 			for _, r := range rxs {
+				if !w.valid(s) || !w.valid(r) {
+					simrt.Hit("out-of-range-index-in-delete")
+				}
 				if !w.conn[c09lPair{s, r}] {
 					simrt.Hit("delete-of-absent-pair")
 				}
@@ -619,6 +640,21 @@ func (w *c09lWorld) request(kind int) {
 		}
 		w.refCouple(fromErr, on)
 		w.checkCoupling(what, nC, want)
+		if w.nMsgs("GROUPTRIGGER") == nG && w.lastReported() != c09lConnString(w.conn) {
+			// observation (see notes): the request changed the set and only TRIGCOUPLING was broadcast
+			simrt.Hit("coupling-request-changed-the-set-without-a-GROUPTRIGGER-message")
+			if m, have := w.sk.lastMsg("GROUPTRIGGER"); have && !on {
+				gts, _ := m.state.(GroupTriggerState)
+				for s, rxs := range gts.Connections {
+					for _, r := range rxs {
+						if !w.conn[c09lPair{s, r}] {
+							// sharper: with coupling reported off, the latest GROUPTRIGGER still lists a pair that is no longer used
+							simrt.Hit("coupling-off-removed-a-pair-the-latest-GROUPTRIGGER-still-lists")
+						}
+					}
+				}
+			}
+		}
 		// the set the request left behind, as reported by an add of nothing (half of the time;
 		// otherwise it is visible through the secondaries only)
 		if simrt.Draw(2) == 1 {
@@ -755,22 +791,22 @@ func (w *c09lWorld) primaryOK(b *c09lBatch) string {
 }
 
 // trySplit checks one primaries|secondaries split against one connection set.
-func (w *c09lWorld) trySplit(bs []c09lBatch, split int, conn map[c09lPair]bool) (why string, prim map[int][]FrameIndex) {
+func (w *c09lWorld) trySplit(bs []c09lBatch, split int, conn map[c09lPair]bool) (why string, stage int, prim map[int][]FrameIndex) {
 	prim = map[int][]FrameIndex{}
 	sec := map[int][]FrameIndex{}
 	for i := range bs {
 		b := &bs[i]
 		if i < split {
 			if _, dup := prim[b.ch]; dup {
-				return fmt.Sprintf("channel %d twice among the primaries", b.ch), nil
+				return fmt.Sprintf("channel %d twice among the primaries", b.ch), 0, nil
 			}
 			if why := w.primaryOK(b); why != "" {
-				return why, nil
+				return why, 0, nil
 			}
 			prim[b.ch] = b.frames
 		} else {
 			if _, dup := sec[b.ch]; dup {
-				return fmt.Sprintf("channel %d twice among the secondaries", b.ch), nil
+				return fmt.Sprintf("channel %d twice among the secondaries", b.ch), 0, nil
 			}
 			sec[b.ch] = b.frames
 		}
@@ -785,10 +821,10 @@ func (w *c09lWorld) trySplit(bs []c09lBatch, split int, conn map[c09lPair]bool) 
 		want = c09lSorted(want)
 		got := c09lSorted(sec[r])
 		if fmt.Sprint(want) != fmt.Sprint(got) {
-			return fmt.Sprintf("receiver %d: secondary frames %v, primary frames of its sources %v", r, got, want), nil
+			return fmt.Sprintf("taking the first %d batches as primaries, receiver %d has secondary frames %v, its sources have primary frames %v", split, r, got, want), 1, nil
 		}
 	}
-	return "", prim
+	return "", 2, prim
 }
 
 func (w *c09lWorld) checkRecord(ro *recObs) {
@@ -843,17 +879,20 @@ func (w *c09lWorld) checkCycle(conns ...map[c09lPair]bool) {
 		prim map[int][]FrameIndex
 	}
 	var sols []solution
-	why := ""
+	why, whyStage := "", -1
+	okFor := make([]bool, len(conns))
 	for ci, conn := range conns {
 		if ci > 0 && c09lConnString(conn) == c09lConnString(conns[0]) {
+			okFor[ci] = okFor[0]
 			continue
 		}
 		for split := 0; split <= len(bs); split++ {
-			y, prim := w.trySplit(bs, split, conn)
+			y, stage, prim := w.trySplit(bs, split, conn)
 			if y == "" {
 				sols = append(sols, solution{conn, prim})
-			} else if why == "" || split == len(bs) && ci == 0 {
-				why = y
+				okFor[ci] = true
+			} else if stage >= whyStage {
+				why, whyStage = y, stage
 			}
 		}
 	}
@@ -869,6 +908,14 @@ func (w *c09lWorld) checkCycle(conns ...map[c09lPair]bool) {
 		sig := "group:secondaries-differ"
 		simrt.Fail("C09L.secondaries", sig, "cycle %d: no primaries|secondaries split of the published batches %v is consistent with the connections %s (%s); triggers enabled: %s",
 			w.cycles, desc, strings.Join(cs, " or "), why, w.trigSummary())
+	}
+	if len(conns) == 2 && c09lConnString(conns[0]) != c09lConnString(conns[1]) {
+		switch {
+		case okFor[0] && !okFor[1]:
+			simrt.Hit("in-flight-request-took-effect-after-the-block")
+		case okFor[1] && !okFor[0]:
+			simrt.Hit("in-flight-request-took-effect-before-the-block")
+		}
 	}
 	// own-trigger bookkeeping: only what every interpretation agrees on
 	for c := 0; c < w.nchan; c++ {
@@ -897,6 +944,16 @@ func (w *c09lWorld) checkCycle(conns ...map[c09lPair]bool) {
 		nsec += len(b.frames)
 	}
 	nsec -= nprim
+	for i := range bs {
+		if _, isPrim := sol.prim[bs[i].ch]; isPrim && fmt.Sprint(sol.prim[bs[i].ch]) == fmt.Sprint(bs[i].frames) {
+			continue
+		}
+		for _, f := range bs[i].frames {
+			if int(f)-w.npre < w.prevLen {
+				simrt.Hit("secondary-window-reaches-into-retained-history")
+			}
+		}
+	}
 	w.nPrimaries += nprim
 	w.nSecondaries += nsec
 	if nsec > 0 {
